@@ -336,10 +336,23 @@ func (r *Replica) ExecBlock(b *Block) *BlockResult {
 	res.BeginEvents = bb.Events
 	for _, tx := range b.Txs {
 		res.Txs = append(res.Txs, r.DeliverTx(tx))
+		if r.Crashed {
+			// handlePanic closed the application: every later call would die on the closed databases
+			for len(res.Txs) < len(b.Txs) {
+				res.Txs = append(res.Txs, TxResult{Code: 99, Log: "application closed"})
+			}
+			return res
+		}
+	}
+	if r.Crashed {
+		return res
 	}
 	eb := r.EndBlock(b.Height)
 	res.Updates = eb.ValidatorUpdates
 	res.EndEvents = eb.Events
+	if r.Crashed {
+		return res
+	}
 	res.AppHash = r.Commit()
 	r.IndexBlock(b, res)
 	return res
